@@ -651,7 +651,7 @@ func vC16RunJWE(k *vKit, gen vSx, r *vRng, alg, enc string, zip, size, ser int) 
 		val  string
 	}{{"iv", ""}, {"iv", vC16B64.EncodeToString(ivb[:len(ivb)-1])}, {"iv", vC16B64.EncodeToString(append(append([]byte{}, ivb...), 0))},
 		{"tag", ""}, {"tag", vC16B64.EncodeToString(tagb[:len(tagb)-1])}, {"ciphertext", ""}, {"encrypted_key", ""},
-		{"encrypted_key", vC16B64.EncodeToString(append(append([]byte{}, ekb...), 0))}} {
+		{"encrypted_key", vC16B64.EncodeToString(append(append([]byte{}, ekb...), 0))}, {"encrypted_key-added", "AAAA"}} {
 		tt := t
 		switch m.name {
 		case "iv":
@@ -663,6 +663,11 @@ func vC16RunJWE(k *vKit, gen vSx, r *vRng, alg, enc string, zip, size, ser int) 
 				continue
 			}
 			tt.ct64 = m.val
+		case "encrypted_key-added": // dir, ECDH-ES: RFC 7516 5.2 step 10
+			if len(ekb) != 0 {
+				continue
+			}
+			tt.ek64 = m.val
 		default:
 			if len(ekb) == 0 {
 				continue
